@@ -7,8 +7,11 @@ Part F (pure key-list transformation):
      with the exported L1 result (drift = difference).
   C  drifting cases, model counterexamples and results recorded from the real code on tables over all 8
      modifiers are judged by TLC with the P_C13 relation (the oracle is always the TLA+ spec).
-Part P (pipeline): configurations with defoverrides and plain keys, exhaustive short and random
-  press/release histories through the real stepper, traces validated by TLC against the P_C13 monitor.
+Part P (pipeline): configurations with defoverrides and plain keys (mapped to themselves, remapped j k -> a b,
+  swapped a b -> b a), override-release-on-activation on / off; exhaustive short and random press / release /
+  OS-repeat histories through the real stepper - the ticking one and the BLOCKING one (stops ticking once
+  can_block_update_idle_waiting returned true, as the processing loop does) - traces validated by TLC against the
+  P_C13 monitor (O5: at every may-block point the OS key set is final; R1/R2: repeats).
 """
 import itertools, threading
 from props.common import *
@@ -123,7 +126,7 @@ def sum_stats(path):
     return tot
 
 
-def run_level(res, wd, name, ovu, lists, tables, bugs=(), timeout=1500):
+def run_level(res, wd, name, ovu, lists, tables, bugs=(), timeout=1500, workers=4):
     """TLC: L1 vs P_C13 on tables x lists; harness: real override_keys vs exported L1 results.
     Returns dict with counts and the list of cases (table, list) to be judged on the real code."""
     mod = "MC_C13F_" + name
@@ -132,7 +135,7 @@ def run_level(res, wd, name, ovu, lists, tables, bugs=(), timeout=1500):
                             tables=tla_val(tables), bugs=tla_val(list(bugs))))
     with open(os.path.join(wd, mod + ".cfg"), "w") as f:
         f.write(CFG_F)
-    r = run_tlc(wd, mod, workers=min(NCPU, 12), timeout=timeout, heap="8g")
+    r = run_tlc(wd, mod, workers=workers, timeout=timeout, heap="6g")
     tlc_ok(r, mod)
     cases = os.path.join(wd, mod + ".cases.ndjson")
     n = extract_prints(r["out"], "CASE", cases)
@@ -224,7 +227,7 @@ def judge(wd, name, real_file, timeout=1500):
         f.write(MC_V % dict(mod=mod, mods=tla_val(set(allmods()))))
     with open(os.path.join(wd, mod + ".cfg"), "w") as f:
         f.write(CFG_V)
-    r = run_tlc(wd, mod, workers=min(NCPU, 12), timeout=timeout, heap="8g",
+    r = run_tlc(wd, mod, workers=6, timeout=timeout, heap="6g",
                 env_extra={"CASES": os.path.abspath(real_file)})
     tlc_ok(r, mod)
     ve, dr, stf = [os.path.join(wd, mod + x) for x in (".verr.ndjson", ".drift.ndjson", ".stat.ndjson")]
@@ -376,19 +379,45 @@ def eight_mod_lines(tier, rng):
 
 
 # ------------------------------------------------------------------ part P: pipeline
-def pipeline_cfg(ovs, roa):
-    desc = {"keys": ["lsft", "lctl", "a", "b"], "layers": [{k: {"t": "key", "k": k} for k in ["lsft", "lctl", "a", "b"]}],
+# layouts: (physical key name, key written in the layer)
+LAYOUTS = {
+    "id": [("lsft", "lsft"), ("lctl", "lctl"), ("a", "a"), ("b", "b")],
+    "rm": [("lsft", "lsft"), ("lctl", "lctl"), ("j", "a"), ("k", "b")],     # remapped keys
+    "sw": [("lsft", "lsft"), ("lctl", "lctl"), ("a", "b"), ("b", "a")],     # swapped: a key named like an override input
+}
+REPEAT_ENV = r"""
+RepKeys == %s
+Repeat(c) == /\ Alive /\ c \in phys
+             /\ K' = HandleInput(K, "r", c) /\ UNCHANGED phys
+             /\ mon' = Mon!MonIn(mon, [e |-> "r", c |-> c, out |-> K'.out])
+             /\ hist' = Append(hist, <<"r", c>>)
+"""
+
+
+def pipeline_cfg(ovs, roa, layout="id"):
+    lay = LAYOUTS[layout]
+    desc = {"keys": [p for p, _ in lay], "layers": [{p: {"t": "key", "k": k} for p, k in lay}],
             "defcfg": {"override-release-on-activation": "yes" if roa else "no"}, "extra": [table_text(ovs)]}
-    return cfgdesc.render_kbd(desc), {"mods": allmods(), "table": ovs, "roa": 1 if roa else 0}
+    params = {"mods": allmods(), "table": ovs, "roa": 1 if roa else 0}
+    if layout != "id":
+        params["map"] = [{"c": C(p), "k": C(k)} for p, k in lay]
+    return cfgdesc.render_kbd(desc), params
 
 
-def toggles(keys, n, gap):
-    """every physically consistent press/release history of n events over keys"""
+def toggles(keys, n, gap, rkeys=()):
+    """every physically consistent history of n events over keys: press / release toggles and, for rkeys, an OS
+    repeat of the key while it is down"""
     out = []
-    for seq in itertools.product(keys, repeat=n):
-        down, s = set(), []
-        for k in seq:
-            if k in down:
+    alpha = [("k", k) for k in keys] + [("r", k) for k in rkeys]
+    for seq in itertools.product(alpha, repeat=n):
+        down, s, ok = set(), [], True
+        for kind, k in seq:
+            if kind == "r":
+                if k not in down:
+                    ok = False
+                    break
+                s.append(["r", k])
+            elif k in down:
                 s.append(["u", k])
                 down.discard(k)
             else:
@@ -396,8 +425,10 @@ def toggles(keys, n, gap):
                 down.add(k)
             if gap:
                 s.append(["t", gap])
+        if not ok or (rkeys and not any(kind == "r" for kind, _ in seq)):
+            continue          # with rkeys: only the histories that contain a repeat (the others are run without)
         for k in sorted(down):
-            s += [["u", k], ["t", 1]]
+            s += [["u", k], ["t", gap or 1]]
         s.append(["t", 4])
         out.append(s)
     return out
@@ -406,30 +437,58 @@ def toggles(keys, n, gap):
 def pipeline_jobs(tier, rng):
     S, Ct, A, B = C("lsft"), C("lctl"), C("a"), C("b")
     X, Y, N9, RA = C("x"), C("y"), C("9"), C("ralt")
+    quick = tier == "quick"
     tables = [
         ("t1", [{"i": [S, A], "o": [X]}, {"i": [S, Ct, A], "o": [Y]}, {"i": [B], "o": [S, B]}]),
         ("t2", [{"i": [S, A], "o": [S, N9]}, {"i": [Ct, A], "o": [B]}, {"i": [S, Ct, B], "o": [RA, X]}]),
     ]
-    if tier == "thorough":
+    if not quick:
         tables.append(("t3", [{"i": [A, S], "o": [Ct, A]}, {"i": [Ct, B], "o": [A]}, {"i": [A], "o": [X]}]))
         for i in range(12):
             tables.append(("r%d" % i, rand_table(rng, [S, Ct], [A, B, X])))
-    keys = [S, Ct, A, B]
     jobs = []
     insts = []
+    gaps = [0, 0, 1, 1, 2, 3]
     for name, ovs in tables:
+        rnd = name.startswith("r")
         for roa in (False, True):
-            kbd, params = pipeline_cfg(ovs, roa)
-            tag = "%s_%s" % (name, "roa" if roa else "std")
-            if name in (("t1",) if tier == "quick" else ("t1", "t2", "t3", "r0")):
-                insts.append({"name": "c13_" + tag, "kbd": kbd, "keys": keys, "qmax": 2 if tier == "quick" else 3,
-                              "monitor": {"module": "P_C13", "params": params}})
-            n = 5 if tier == "quick" else 6
-            scripts = toggles(keys, n, 1) if not name.startswith("r") else toggles(keys, 4, 1)
-            nr = 60 if tier == "quick" else 400
-            scripts += [rand_history(rng, keys, rng.randint(4, 40 if tier == "quick" else 120), [0, 0, 1, 1, 2, 3], tail=5)
-                        for _ in range(nr)]
-            jobs.append({"cfg": kbd, "params": params, "tag": tag, "scripts": scripts})
+            for layout in ("id", "rm", "sw"):
+                lay = LAYOUTS[layout]
+                keys = [C(p) for p, _ in lay]
+                rkeys = keys[2:]
+                kbd, params = pipeline_cfg(ovs, roa, layout)
+                tag = "%s_%s_%s" % (name, "roa" if roa else "std", layout)
+                # ---- binding D/B: L1 || monitor, every transition replayed.  The remapped layouts get OS repeats of the
+                # non-modifier keys as a further environment action.
+                if layout == "id" and name in (("t1",) if quick else ("t1", "t2", "t3", "r0")):
+                    insts.append({"name": "c13_" + tag, "kbd": kbd, "keys": keys, "qmax": 2 if quick else 3,
+                                  "monitor": {"module": "P_C13", "params": params}})
+                if layout != "id" and (name, layout, roa) in ((("t2", "rm", False), ("t2", "sw", True)) if quick else
+                                                              tuple((t, l, r) for t in ("t1", "t2", "t3") for l in ("rm", "sw")
+                                                                    for r in (False, True))):
+                    insts.append({"name": "c13_" + tag, "kbd": kbd, "keys": keys, "qmax": 1 if quick else 2,
+                                  "monitor": {"module": "P_C13", "params": params},
+                                  "extra_actions": REPEAT_ENV % tla_val(set(rkeys)),
+                                  "extra_next": "\\/ (\\E c \\in RepKeys : Repeat(c))"})
+                # ---- binding C: histories through the real ticking stepper ...
+                nr = (30 if quick else 300) if layout == "id" else (20 if quick else 200)
+                if layout == "id":
+                    scripts = toggles(keys, 4 if rnd else (5 if quick else 6), 1)
+                    scripts += toggles(keys, 3 if quick else 4, 1, rkeys)
+                else:
+                    scripts = toggles(keys, 3 if rnd else 4, 1, rkeys)
+                scripts += [rand_history(rng, keys, rng.randint(4, 40 if quick else 120), gaps, tail=5,
+                                         repeat_p=rng.choice([0.0, 0.3, 0.6])) for _ in range(nr)]
+                jobs.append({"cfg": kbd, "params": params, "tag": tag, "scripts": scripts})
+                # ---- ... and through the blocking stepper: gaps of 2 ticks, so that a tick the loop would sleep
+                # through is really not executed (with a gap of 1 the two steppers coincide)
+                if layout == "id":
+                    bs = toggles(keys, 3 if rnd else 4, 2) + toggles(keys, 3, 2, rkeys)
+                else:
+                    bs = toggles(keys, 3, 2, rkeys) if not quick else []
+                bs += [rand_history(rng, keys, rng.randint(4, 40 if quick else 120), [0, 1, 2, 2, 3, 5], tail=5,
+                                    repeat_p=rng.choice([0.0, 0.3])) for _ in range(nr)]
+                jobs.append({"cfg": kbd, "params": params, "tag": tag + "_blk", "scripts": bs, "opts": {"mode": "block"}})
     return jobs, insts
 
 
@@ -489,8 +548,47 @@ def run(tier, seed):
     to_judge = []
     mutants = {}
     # ---- part F, bindings D and B
-    for name, ovu, lists, tables in universes(tier, rng):
-        lv = run_level(res, wd, name, ovu, lists, tables, bugs=MODEL_MUTANTS if name == "three" else ())
+    parts = os.environ.get("C13_PARTS", "FP")     # debugging aid: "P" = pipeline part only
+    unis = universes(tier, rng) if "F" in parts else []
+    lvs, excs = [None] * len(unis), []
+
+    def level_work(i, u):
+        try:
+            w = os.path.join(wd, "lv_" + u[0])
+            os.makedirs(w, exist_ok=True)
+            lvs[i] = run_level(res, w, u[0], u[1], u[2], u[3], bugs=MODEL_MUTANTS if u[0] == "three" else (),
+                               workers=4 if tier == "quick" else 5)
+        except Exception as e:
+            excs.append(e)
+    lines, listsets = eight_mod_lines(tier, rng)
+    jobs, insts = pipeline_jobs(tier, rng)
+    # DESIGN 3.4 model mutant of the pipeline monitor: L1 with an is_idle that ignores keys still to be written
+    # (Bug = "idle_ignores_prev", the code before fix 345be8d) must be rejected by O5a on the roa instance
+    meta = dict([i for i in insts if i["name"] == "c13_t1_roa_id"][0])
+    meta.update({"name": "c13_meta_idle_prev", "bug": "idle_ignores_prev", "edges": False, "meta": True})
+    rs = [None] * (len(insts) + 1)
+    exc = []
+    sem = threading.Semaphore(5 if tier == "quick" else 3)      # TLC runs of part P at a time (they run next to part F)
+
+    def mc_work(i, inst):
+        with sem:
+            try:
+                w = os.path.join(wd, "mc_" + inst["name"])
+                os.makedirs(w, exist_ok=True)
+                rs[i] = mc.check_instance(inst, w, workers=2 if tier == "quick" else 4, timeout=1500,
+                                          replay=not inst.get("meta"))
+            except Exception as e:
+                exc.append(e)
+    mth = [threading.Thread(target=mc_work, args=x) for x in enumerate(insts + [meta])] if "P" in parts else []
+    th = [threading.Thread(target=level_work, args=(i, u)) for i, u in enumerate(unis)]
+    for t in mth + th:
+        t.start()
+    for t in th:
+        t.join()
+    if excs:
+        raise excs[0]
+    for lv in lvs:
+        name = lv["name"]
         for b, n in lv.pop("mutants_rejected").items():
             mutants[b] = mutants.get(b, 0) + n
         to_judge += lv.pop("judge")
@@ -505,12 +603,11 @@ def run(tier, seed):
         log("[c13] level %s: %d tables x %d lists, model cex %d, drift %d, tlc %.0fs" %
             (name, lv["tables"], lv["lists"], lv["model_cex"], lv["drift"], lv["tlc_wall_s"]))
     # ---- model mutants: the L2 function must reject seeded errors of L1 (meta-check, DESIGN 3.4)
-    for bug in MODEL_MUTANTS:
+    for bug in MODEL_MUTANTS if "F" in parts else ():
         if not mutants.get(bug):
             raise ToolError("model mutant %s is not rejected by P_C13" % bug)
     # ---- part F, binding C: results recorded from the real code judged by TLC
-    lines, listsets = eight_mod_lines(tier, rng)
-    lines = to_judge + lines
+    lines = (to_judge + lines) if "F" in parts else lines[:3]
     real = eval_real(wd, "c13_real", lines, listsets)
     # keep the validation input bounded per TLC run
     recs = open(real).read().splitlines()
@@ -555,14 +652,32 @@ def run(tier, seed):
         (vstats["n"], vstats["sharp"], vstats["chg"], nviol))
     # ---- part P: pipeline.  D + B: L1 (Kanata.tla with the override step, constants from the parser dump)
     # || P_C13 monitor for every history within the bounds, every model transition replayed on the real code
-    jobs, insts = pipeline_jobs(tier, rng)
     witness_jobs = []
-    for inst in insts:
-        r = mc.check_instance(inst, wd, workers=min(NCPU, 12), timeout=1500)
+    for t in mth:
+        t.join()
+    if exc:
+        raise exc[0]
+    rm = rs.pop()
+    o5a = sum(1 for w in flow.witness_scripts(rm["monerr_file"], 100000) if w["err"].startswith("C13 O5a"))
+    if not o5a:
+        raise ToolError("model mutant idle_ignores_prev (blocked loop owes the release of an override output) is not "
+                        "rejected by P_C13 O5a")
+    mutants["idle_ignores_prev"] = o5a
+    res.states += rm["states"] or 0
+    res.transitions += rm["generated"] or 0
+    for inst, r in zip(insts, rs):
         res.add_instance(r)
         log("[c13] instance %s: %d states, %d edges replayed, drift %d, monitor errors %d, tlc %.0fs" %
             (r["name"], r["states"], r.get("replayed", 0), r.get("drift", 0), r["n_monerr"], r["tlc_wall_s"]))
-        ws = flow.witness_scripts(r["monerr_file"], 30) + flow.witness_scripts(r["panic_file"], 10)
+        # one witness per monitor rule first (shortest), then the shortest overall
+        ws_all = flow.witness_scripts(r["monerr_file"], 100000)
+        ws, seen = [], {}
+        for w in ws_all:
+            k = w["err"][:8]
+            seen[k] = seen.get(k, 0) + 1
+            if seen[k] <= 8:
+                ws.append(w)
+        ws += flow.witness_scripts(r["panic_file"], 10)
         scripts = [flow.hist_to_script(w["h"], 6) for w in ws] + \
                   [flow.hist_to_script(d["h"], 6) for d in r.get("drift_samples", [])]
         if scripts:
@@ -574,12 +689,24 @@ def run(tier, seed):
                              "next tick changes the OS key state, e.g. after %s" %
                              (r["name"], r["n_nostutter"], json.dumps(w[0]["h"]) if w else "?"))
     jobs = shard_local_index(witness_jobs + jobs)
-    errs = par_validate(res, "P_C13", jobs, wd, "c13_pipe", 8 if tier == "quick" else 12)
-    for e in sorted(errs, key=lambda e: len(script_of(jobs, e["job"], 0)[1]))[:20]:
+    errs = par_validate(res, "P_C13", jobs, wd, "c13_pipe", 6 if tier == "quick" else 10)
+    res.extra["pipeline_histories"] = {"ticking": sum(1 for j in jobs if not j.get("opts")),
+                                       "blocking_stepper": sum(1 for j in jobs if j.get("opts")),
+                                       "with_os_repeats": sum(1 for j in jobs if any(st[0] == "r" for st in j["scripts"][0])),
+                                       "rejected": len(errs)}
+    # every distinct rule that fired is reported (shortest histories first), so that a recorded finding cannot hide
+    # a different rejection
+    per_rule = {}
+    for e in sorted(errs, key=lambda e: len(script_of(jobs, e["job"], 0)[1])):
+        k = e["err"][:8]
+        per_rule[k] = per_rule.get(k, 0) + 1
+        if per_rule[k] > 6:
+            continue
         j, s = script_of(jobs, e["job"], 0)
-        flow.classify(res, pid, e["err"], e["err"] + " cfg=" + j["cfg"],
+        flow.classify(res, pid, e["err"], e["err"] + (" roa=%d" % j["params"]["roa"]) + " cfg=" + j["cfg"],
                       {"property": pid, "cfg": j["cfg"], "params": j["params"], "script": s, "err": e["err"],
-                       "monitor": "P_C13"}, "pipe_%d" % len(res.violations))
+                       "monitor": "P_C13", "opts": j.get("opts", {})}, "pipe_%d" % len(res.violations))
+    res.extra["rejections_by_rule"] = per_rule
     res.samples.append({"pipeline_cfg": jobs[0]["cfg"], "history": jobs[0]["scripts"][0][:16]})
     if res.drift:
         res.notes.append("model drift: %d cases differ between spec/Overrides.tla and override_keys; each was judged "
